@@ -1,8 +1,8 @@
 (** C20: an I/O failure below is an I/O failure above.
 
     [io b x] says that the reply [x] to the base call [b] is an underlying failure: a trait call on a
-    base filesystem that answered with an I/O error, or the harness wrapper deciding to inject its
-    fault.  A program is *strict* if on every path through its tree on which such a reply occurs -
+    base filesystem that answered with an I/O error, a read / write / flush on a handle that answered
+    with an I/O error, or the harness wrapper deciding to inject its fault.  A program is *strict* if on every path through its tree on which such a reply occurs -
     whatever all the other replies are - the value it returns is an I/O error.  The predicate is
     compositional ([strict_try], [strict_let]) and closed under every adapter, so it holds of every
     trait call of every stacking and of every operation of the path API on top. *)
@@ -17,7 +17,7 @@ Definition ioe {T} (r : res T) : Prop := match r with Err e => e_kind e = EIo | 
 Definition io (b : bcall) : brep b -> Prop :=
   match b as b return brep b -> Prop with
   | BFs _ c => fun r => ioe r
-  | BH _ _ => fun _ => False
+  | BH _ o => fun r => io_hit o = true /\ ioe r
   | BLog _ _ => fun inject => inject = true
   end.
 
@@ -93,10 +93,11 @@ Proof.
 Qed.
 
 (** a call whose reply is ignored as a value (dropping a handle) *)
-Lemma strict_then_h {U} h o (k : bprog (res U)) : strict k -> strict (bind (Call (BH h o) Ret) (fun _ => k)).
+Lemma strict_then_h {U} h o (k : bprog (res U)) :
+  io_hit o = false -> strict k -> strict (bind (Call (BH h o) Ret) (fun _ => k)).
 Proof.
-  intros Hk seen. cbn. constructor. intros x. cbn [io].
-  eapply tr_seen_iff; [intros; eapply post_iff; eauto| |apply Hk]. tauto.
+  intros Ho Hk seen. cbn. constructor. intros x. cbn [io]. rewrite Ho.
+  eapply tr_seen_iff; [intros; eapply post_iff; eauto| |apply Hk]. intuition discriminate.
 Qed.
 
 Lemma all_ioe_then_h {U} h o (k : bprog (res U)) : all_ioe k -> all_ioe (bind (Call (BH h o) Ret) (fun _ => k)).
@@ -224,11 +225,29 @@ Proof.
   - apply tr_of_all_ioe; [exact Hs|]. now apply Hio.
 Qed.
 
+(** a handle operation whose reply is used: the continuation is strict for every reply, and turns a
+    failed read / write / flush into an I/O error *)
 Lemma strict_hcall {U} h o (k : res (hval o) -> bprog (res U)) :
-  (forall x, strict (k x)) -> strict (bind (Call (BH h o) Ret) k).
+  (forall x, strict (k x)) -> (forall x, io_hit o = true -> ioe x -> all_ioe (k x)) ->
+  strict (bind (Call (BH h o) Ret) k).
 Proof.
-  intros Hk seen. cbn. constructor. intros x. cbn [io].
-  eapply tr_seen_iff; [intros; eapply post_iff; eauto| |apply Hk]. tauto.
+  intros Hk Hio seen. cbn. constructor. intros x. cbn [io].
+  destruct (io_hit o) eqn:Ho.
+  - destruct x as [v|e|].
+    + eapply tr_seen_iff; [intros; eapply post_iff; eauto| |apply Hk]. cbn. tauto.
+    + destruct (e_kind e) eqn:Ek;
+        try (eapply tr_seen_iff; [intros; eapply post_iff; eauto| |apply Hk]; cbn; rewrite Ek; intuition discriminate).
+      apply tr_of_all_ioe; [right; split; [reflexivity|exact Ek]|]. apply Hio; [reflexivity|exact Ek].
+    + eapply tr_seen_iff; [intros; eapply post_iff; eauto| |apply Hk]. cbn. tauto.
+  - eapply tr_seen_iff; [intros; eapply post_iff; eauto| |apply Hk]. intuition discriminate.
+Qed.
+
+(** seek and drop are not I/O: their reply never counts as an underlying failure *)
+Lemma strict_hcall_quiet {U} h o (k : res (hval o) -> bprog (res U)) :
+  io_hit o = false -> (forall x, strict (k x)) -> strict (bind (Call (BH h o) Ret) k).
+Proof.
+  intros Ho Hk seen. cbn. constructor. intros x. cbn [io]. rewrite Ho.
+  eapply tr_seen_iff; [intros; eapply post_iff; eauto| |apply Hk]. intuition discriminate.
 Qed.
 
 Lemma all_ioe_hcall {U} h o (k : res (hval o) -> bprog (res U)) :
@@ -312,8 +331,11 @@ Section TransferStrict.
   Proof.
     unfold vp_read_to_string. st_step; [now apply st_metadata|]. st_step; [|apply strict_ret].
     st_step; [now apply st_open_file|].
-    apply strict_hcall. intros r. apply strict_hcall. intros _.
-    destruct r as [bs|e|]; [destruct (utf8_valid bs)| |]; apply strict_ret.
+    apply strict_hcall.
+    - intros r. apply strict_hcall_quiet; [reflexivity|]. intros _.
+      destruct r as [bs|e|]; [destruct (utf8_valid bs)| |]; apply strict_ret.
+    - intros r _ Hr. apply all_ioe_hcall. intros _. destruct r as [bs|e|]; [destruct Hr| |destruct Hr].
+      constructor. reflexivity.
   Qed.
 
   Lemma st_stream_copy p p' after : strict after -> strict (stream_copy v p v' p' after).
@@ -321,12 +343,15 @@ Section TransferStrict.
     intros Ha. unfold stream_copy. st_step; [now apply st_open_file|].
     apply strict_let; [now apply st_create_file| |].
     - intros [dst|e|]; [| |apply strict_ret].
-      + apply strict_hcall. intros rc.
-        apply strict_let.
-        * destruct rc as [n|e|]; [exact Ha|apply strict_ret|apply strict_ret].
-        * intros ra. apply strict_hcall. intros _. apply strict_hcall. intros _. apply strict_ret.
-        * intros ra Hra. apply all_ioe_hcall. intros _. apply all_ioe_hcall. intros _. constructor. exact Hra.
-      + apply strict_hcall. intros _. apply strict_ret.
+      + apply strict_hcall.
+        * intros rc. apply strict_let.
+          -- destruct rc as [n|e|]; [exact Ha|apply strict_ret|apply strict_ret].
+          -- intros ra. apply strict_hcall_quiet; [reflexivity|]. intros _.
+             apply strict_hcall_quiet; [reflexivity|]. intros _. apply strict_ret.
+          -- intros ra Hra. apply all_ioe_hcall. intros _. apply all_ioe_hcall. intros _. constructor. exact Hra.
+        * intros rc _ Hrc. destruct rc as [n|e|]; [destruct Hrc| |destruct Hrc].
+          cbn [bind]. apply all_ioe_hcall. intros _. apply all_ioe_hcall. intros _. constructor. reflexivity.
+      + apply strict_hcall_quiet; [reflexivity|]. intros _. apply strict_ret.
     - intros [dst|e|] Hr; [destruct Hr| |destruct Hr].
       apply all_ioe_hcall. intros _. constructor. exact Hr.
   Qed.
@@ -519,7 +544,7 @@ Section OverlayStrict.
   Proof.
     unfold set_whiteout. st_step; [apply (st_create_dir_all (fst top) st_top)|].
     st_step; [apply (st_create_file (fst top) st_top)|].
-    apply strict_hcall. intros _. apply strict_ret.
+    apply strict_hcall_quiet; [reflexivity|]. intros _. apply strict_ret.
   Qed.
 
   Theorem st_ovl_impl c : strict (ovl_impl top lower c).
@@ -536,7 +561,7 @@ Section OverlayStrict.
       st_step; [apply strict_ret|].
       st_step; [apply (st_create_file (fst top) st_top)|].
       apply strict_let; [apply st_clear_whiteout| |].
-      + intros [u|e|]; [apply strict_ret| |apply strict_ret]. apply strict_hcall. intros _. apply strict_ret.
+      + intros [u|e|]; [apply strict_ret| |apply strict_ret]. apply strict_hcall_quiet; [reflexivity|]. intros _. apply strict_ret.
       + intros [u|e|] Hr; [destruct Hr| |destruct Hr]. apply all_ioe_hcall. intros _. constructor. exact Hr.
     - st_step; [exact (st_exists (fst top) st_top _)|].
       st_step; [|apply (st_append_file (fst top) st_top)].
@@ -619,7 +644,8 @@ Qed.
 
 Lemma handle_op_fault h o st : st_fault (fst (handle_op h o st)) = st_fault st.
 Proof.
-  unfold handle_op. destruct (st_handles st !! h) as [x|]; [|reflexivity].
+  destruct (handle_op_cases h o st) as [->| ->]; [reflexivity|].
+  unfold handle_op0. destruct (st_handles st !! h) as [x|]; [|reflexivity].
   destruct o as [n|sf|data| | |dst|].
   - destruct x; try reflexivity. destruct (mem_reader_read content pos n); reflexivity.
   - destruct (match sf with SeekStart o => (o <? 0)%Z | _ => false end); [reflexivity|].
@@ -685,3 +711,88 @@ Proof.
   pose proof (fault_fired_io (walk_collect v fuel w []) st id k Hf Hn) as Hio.
   destruct H as [H|[_ H]]; [tauto|exact H].
 Qed.
+
+(** ** failing handle I/O: while the harness's I/O fault is armed every read / write / flush on a
+    handle answers with an I/O error.  The flag survives every base call, so: a strict program that
+    performs such an operation at all returns an I/O error - it cannot report success *)
+Lemma fs_call_io i c st : st_io (fst (fs_call i c st)) = st_io st.
+Proof.
+  unfold fs_call. destruct (st_bases st !! i) as [[s|s|s]|]; [| | |reflexivity].
+  - unfold mem_fs_call. destruct (mem_step c s) as [s' r].
+    destruct c; cbn [mem_glue]; try reflexivity; destruct r; reflexivity.
+  - unfold phys_fs_call. destruct (phys_step c s) as [s' r].
+    destruct c; try reflexivity; destruct r; reflexivity.
+  - unfold emb_fs_call. destruct c; try reflexivity; destruct (emb_step _ s); reflexivity.
+Qed.
+
+Lemma put_io st h x data st' : put st h x data = Some st' -> st_io st' = st_io st.
+Proof.
+  destruct x; cbn; try discriminate.
+  - destruct data; [intros [= <-]; reflexivity|]. intros [= <-]. reflexivity.
+  - destruct data; [intros [= <-]; reflexivity|]. intros [= <-]. cbn.
+    unfold phys_set_content. destruct (st_bases st !! base) as [[| |]|]; reflexivity.
+Qed.
+
+Lemma handle_op_io h o st : st_io (fst (handle_op h o st)) = st_io st.
+Proof.
+  destruct (handle_op_cases h o st) as [->| ->]; [reflexivity|].
+  unfold handle_op0. destruct (st_handles st !! h) as [x|]; [|reflexivity].
+  destruct o as [n|sf|data| | |dst|].
+  - destruct x; try reflexivity. destruct (mem_reader_read content pos n); reflexivity.
+  - destruct (match sf with SeekStart o => (o <? 0)%Z | _ => false end); [reflexivity|].
+    destruct x; try reflexivity.
+    + destruct (mem_reader_seek content pos sf); reflexivity.
+    + destruct (cursor_seek _ pos sf); reflexivity.
+    + destruct (cursor_seek _ pos sf); reflexivity.
+    + destruct (cursor_seek _ pos sf) as [n|]; [destruct (n <=? i64_max)%Z|]; reflexivity.
+    + destruct (cursor_seek _ pos sf) as [n|]; [destruct (n <=? i64_max)%Z|]; reflexivity.
+  - destruct (put st h x data) as [st'|] eqn:E; [|reflexivity]. cbn. eapply put_io; eauto.
+  - destruct x; try reflexivity. cbn. unfold mem_publish. destruct (st_bases st !! base) as [[| |]|]; reflexivity.
+  - destruct x; try reflexivity. cbn. unfold mem_publish. destruct (st_bases st !! base) as [[| |]|]; reflexivity.
+  - destruct (drain st x) as [[out x']|]; [|reflexivity].
+    destruct (st_handles st !! dst) as [y|]; [|reflexivity].
+    destruct (put (set_handle st h x') dst y out) as [st2|] eqn:E; [|reflexivity].
+    cbn. apply put_io in E. exact E.
+  - destruct (drain st x) as [[out x']|]; reflexivity.
+Qed.
+
+Lemma bhandler_io b st : st_io (fst (bhandler b st)) = st_io st.
+Proof.
+  destruct b as [i c|h o|id c]; cbn [bhandler].
+  - apply fs_call_io.
+  - apply handle_op_io.
+  - unfold log_call. destruct (st_fault st) as [[fid k]|]; [|reflexivity].
+    destruct (Nat.eqb fid id); [destruct k|]; reflexivity.
+Qed.
+
+(** the run reaches a handle operation that the armed mode makes fail *)
+Fixpoint io_fault_hits {R} (m : bprog R) (st : store) : Prop :=
+  match m with
+  | Ret _ => False
+  | Call b k =>
+      match b with BH h o => io_fails st h o = true | _ => False end \/
+      io_fault_hits (k (snd (bhandler b st))) (fst (bhandler b st))
+  end.
+
+Lemma hits_io_in_run {R} (m : bprog R) : forall st, io_fault_hits m st -> io_in_run m st.
+Proof.
+  induction m as [r|b kont IH]; intros st Hd; cbn [io_fault_hits io_in_run] in *; [exact Hd|].
+  destruct Hd as [Hb|Hd].
+  - left. destruct b as [i c|h o|id c]; try contradiction. cbn [bhandler io].
+    split; [now apply (io_fails_hit st h)|]. unfold handle_op. rewrite Hb. reflexivity.
+  - right. apply IH. exact Hd.
+Qed.
+
+Theorem strict_io_fault {T} (m : bprog (res T)) : strict m ->
+  forall st, io_fault_hits m st -> ioe (snd (run bhandler m st)).
+Proof.
+  intros Hm st Hd.
+  pose proof (tr_run _ m False (fun a b r Hab => post_iff False a b r Hab) (Hm False) st) as H.
+  pose proof (hits_io_in_run m st Hd) as Hin.
+  destruct H as [H|[_ H]]; [tauto|exact H].
+Qed.
+
+(** and the failure is not a half-performed success either way round: the handle operation that failed left
+    the store as it was *)
+Lemma handle_op_armed h o st : io_fails st h o = true -> handle_op h o st = (st, fail EIo).
+Proof. intros Hio. unfold handle_op. now rewrite Hio. Qed.
